@@ -55,7 +55,9 @@ def step (d : DS) (line : String) : DS × String :=
       let readFlag := match dig with
         | none => ""
         | some g =>
-          if legit.contains g then ""
+          if legit.contains g || kind == "payload" then ""   -- CRC-valid crafted payloads *are* their content
+          else if !d.cfg.validatesCrc then "\t#F:C04-checksum-not-validated"
+          else if !d.cfg.validatesULen then "\t#F:C04-decoded-length-not-validated"
           else if kind == "count" then "\t#F:C04-entry-count-unprotected"
           else "\t#F:C04-misread"
       (d, s!"{line}{allocFlag}{readFlag}\t#A:{a}")
